@@ -151,19 +151,6 @@ def innerTags : Entry → List Nat
 
 def tagsOf (es : List Entry) : List Nat := es.map Entry.tag
 
-mutual
-/-- every group has at least one entry -/
-def groupsNonEmpty : Entry → Bool
-  | .field .. => true
-  | .group _ sub _ => !sub.isEmpty && groupsNonEmptyL sub
-def groupsNonEmptyL : List Entry → Bool
-  | [] => true
-  | e :: es => groupsNonEmpty e && groupsNonEmptyL es
-end
-
-/-- a dictionary segment list: all tags (nested ones included) pairwise distinct, no empty group -/
-def wfEntries (es : List Entry) : Bool := decide (deepTagsL es).Nodup && groupsNonEmptyL es
-
 /-- ASCII text without SOH -/
 def wfText (s : Str) : Bool := s.all (fun c => decide (c < 128) && decide (c ≠ 1))
 
@@ -393,16 +380,6 @@ theorem tag_not_inner {es : List Entry} (h : (deepTagsL es).Nodup) :
     · rw [hb] at hin
       exact h3 _ (tag_mem_deepTags _) _ (deepTags_sub_deepTagsL ha _ (innerTags_sub_deepTags _ _ hin)) rfl
     · exact ih h2 e ha e' hb hin
-
-theorem groupsNonEmpty_of_mem {e : Entry} {es : List Entry} (he : e ∈ es) (h : groupsNonEmptyL es = true) :
-    groupsNonEmpty e = true := by
-  induction es with
-  | nil => simp at he
-  | cons x xs ih =>
-    simp only [groupsNonEmptyL, Bool.and_eq_true] at h
-    rcases List.mem_cons.mp he with he | he
-    · subst he; exact h.1
-    · exact ih he h.2
 
 /-! ### lookups -/
 
